@@ -172,7 +172,12 @@ def apply(drv: CL.Driver, a: Dict[str, Any], km, tk, inst):
     elif op == "reserved" and a["method"].startswith("auto:"):
         call_catalogue(mc, a, km, tk)
     elif op == "reserved":
-        path = a["rpath"]
+        # the probe path is generated over abstract keys: address the real (concrete) nodes
+        def conc(seg):
+            if seg.startswith(CL.META_PREF) and seg[len(CL.META_PREF):] in km.k:
+                return CL.META_PREF + km.k[seg[len(CL.META_PREF):]]
+            return km.k.get(seg, seg)
+        path = "/".join(conc(s_) for s_ in a["rpath"].split("/"))
         base = mc
         m = a["method"]
         val = tk.pool["v1"]
@@ -294,6 +299,9 @@ def gen(rng: random.Random, h5rec: Dict[str, Any], stage: int, job: Dict[str, An
     if r < 0.30:
         a["op"] = "attach"
         a["p"] = rng.choice(nodes) if rng.random() < 0.92 else ["zz", "nope"]
+        hot = [n for n in nodes if any(s_ in job.get("_hot", ()) for s_ in n)]
+        if hot and rng.random() < 0.5:
+            a["p"] = rng.choice(hot)     # nodes at or below a name that merely looks reserved
         keys = ["AA10", "AA20", "DD01", "AUX01"] + (["AA12", "BB10", "CC02", "BB10", "CC02"] if stage >= 1 else [])
         a["cls"] = rng.choice(keys)
         if rng.random() < job.get("p_installed", 0.2):
@@ -327,6 +335,16 @@ def gen(rng: random.Random, h5rec: Dict[str, Any], stage: int, job: Dict[str, An
                                   "copy_src", "copy_dst", "copy_name_kw"])
         a["p"] = rng.choice([n["p"] for n in tree if n["p"]] or [["a"]])
         return a
+    if job.get("_pref") and rng.random() < 0.12:
+        # delete / move / copy a node whose name is a proper prefix of a sibling's name (run1 next to run10)
+        cands = [n["p"] for n in tree if n["p"] and n["p"][-1] in job["_pref"]]
+        if cands:
+            a.update(op=rng.choice(["delete", "delete", "move", "copy"]), p=rng.choice(cands))
+            if a["op"] != "delete":
+                a["q"] = [rng.choice(h5lib.ABSTRACT_KEYS) for _ in range(rng.randint(1, 2))]
+                if a["q"][: len(a["p"])] == a["p"]:
+                    a["op"], a["q"] = "delete", []
+            return a
     e = h5lib.gen_op(rng, tree, depth=job.get("depth", 3), values=["v1", "v2", "v3", "v8"],
                      weights=job.get("data_weights") or {"copy": 3.5, "move": 3, "delete": 3, "set_attr": 1.5, "del_attr": 0.7},
                      allow_copy_into_self=False, attr_keys=job.get("attr_keys"))
@@ -340,6 +358,9 @@ def run_history(job: Dict[str, Any], emit, scratch: Path, tk: h5lib.Tokens, env:
     tid = job["tid"]
     rng = random.Random(job["seed"])
     km = h5lib.KeyMap(rng, job.get("concrete", False))
+    pref = [k for k, v in km.k.items() if any(o != v and o.startswith(v) for o in km.k.values())]
+    ext = [k for k, v in km.k.items() if any(o != v and v.startswith(o) for o in km.k.values())]
+    job = dict(job, _hot=[k for k, v in km.k.items() if "metador_" in v[1:]] + ext, _pref=pref)
     base = scratch / f"c{tid}"
     kinds = job.get("kinds", KINDS)
     drvs = [CL.Driver(k, base / k) for k in kinds]
